@@ -8,7 +8,9 @@
  * \ingroup mptNode
  * \brief delete subnodes
  * 
- * Remove child elements recursively from node.
+ * Remove all elements below node.
+ * The elements are destroyed from a work list (no recursion:
+ * the nesting depth of a tree is not limited by the stack).
  * 
  * \param node  node to remove children
  */
@@ -16,13 +18,24 @@ extern void mpt_node_clear(MPT_STRUCT(node) *node)
 {
 	MPT_STRUCT(node) *tmp = node->children;
 	
-	/* isolate and destroy children (recursive) */
+	node->children = 0;
+	
+	/* isolate and destroy elements */
 	while (tmp) {
-		MPT_STRUCT(node) *next = tmp->next;
+		MPT_STRUCT(node) *next = tmp->next, *sub;
+		/* children of the element go in front of the remaining work */
+		if ((sub = tmp->children)) {
+			MPT_STRUCT(node) *last = sub;
+			while (last->next) {
+				last = last->next;
+			}
+			last->next = next;
+			next = sub;
+			tmp->children = 0;
+		}
 		tmp->next = tmp->prev = tmp->parent = 0;
 		(void) mpt_node_destroy(tmp);
 		tmp = next;
 	}
-	node->children = 0;
 }
 
